@@ -2786,6 +2786,7 @@ type snapshotReadPosition struct {
 	pos          ltx.Pos
 	pageSize     int
 	walEndOffset int64
+	walHdr       []byte // WAL header at the time walEndOffset was determined
 	db           *DB
 	closeOnce    sync.Once
 }
@@ -2847,6 +2848,12 @@ func (db *DB) snapshotPosition(ctx context.Context) (*snapshotReadPosition, erro
 		return nil, fmt.Errorf("pos: %w", err)
 	}
 
+	// Remember the WAL header the end offset below refers to. The read lock
+	// does not keep a writer from restarting a fully checkpointed WAL, and the
+	// offset means nothing in another generation: the reader compares the
+	// header again before and after it reads the WAL.
+	walHdr, _ := readWALHeader(db.WALPath())
+
 	walEndOffset, err := db.snapshotWALEndOffset(pos)
 	if err != nil {
 		return nil, err
@@ -2865,6 +2872,7 @@ func (db *DB) snapshotPosition(ctx context.Context) (*snapshotReadPosition, erro
 		pos:          pos,
 		pageSize:     pageSize,
 		walEndOffset: walEndOffset,
+		walHdr:       walHdr,
 		db:           db,
 	}, nil
 }
@@ -2951,7 +2959,17 @@ func (db *DB) snapshotReader(ctx context.Context, pos *snapshotReadPosition) (io
 		pageMap := make(map[uint32]int64)
 		var maxOffset int64
 		var walCommit uint32
+		// sameWAL reports whether the WAL is still the generation the position
+		// was captured in. Every restart rewrites the header with new salts.
+		sameWAL := func() bool {
+			hdr, err := readWALHeader(db.WALPath())
+			return err == nil && bytes.Equal(hdr, pos.walHdr)
+		}
 		if maxBytes > 0 {
+			if !sameWAL() {
+				pw.CloseWithError(errSnapshotWALRestarted)
+				return
+			}
 			pageMap, maxOffset, walCommit, _, err = rd.pageMap(ctx, maxBytes)
 			if err != nil {
 				pw.CloseWithError(fmt.Errorf("page map: %w", err))
@@ -3003,6 +3021,10 @@ func (db *DB) snapshotReader(ctx context.Context, pos *snapshotReadPosition) (io
 			pw.CloseWithError(fmt.Errorf("write snapshot ltx: %w", err))
 			return
 		}
+		if maxBytes > 0 && !sameWAL() {
+			pw.CloseWithError(errSnapshotWALRestarted)
+			return
+		}
 
 		if err := enc.Close(); err != nil {
 			pw.CloseWithError(fmt.Errorf("close ltx snapshot encoder: %w", err))
@@ -3013,6 +3035,12 @@ func (db *DB) snapshotReader(ctx context.Context, pos *snapshotReadPosition) (io
 
 	return &snapshotReadCloser{PipeReader: pr, pos: pos}, nil
 }
+
+// errSnapshotWALRestarted is returned by a snapshot reader when another
+// connection restarted the WAL between the capture of the snapshot position and
+// the end of the read: frames of the new generation would otherwise be taken
+// for (or hide) frames of the position's generation.
+var errSnapshotWALRestarted = errors.New("wal restarted while the snapshot was being read")
 
 func snapshotHeaderWALRange(maxOffset, frameSize int64) (offset, size int64) {
 	if maxOffset <= WALHeaderSize || frameSize <= 0 {
